@@ -62,13 +62,13 @@ Qed.
 
 (* the binary64 oracle never flags the rounded image of the model's own trace on a valid scenario *)
 Lemma oracle_f_accepts_model : forall G E, g_ndarray G = true -> empty_table_ok E = true ->
-  forall f r s nd ops plan d0 rp0 os,
+  forall f r s nd ops plan d0 rp0 os aft,
   valid_scenario r s nd ops ->
   scenario Z 0%Z G E f r s nd ops (prog_of plan) d0 = Ran os ->
   case_violates_f {| k_form := f; k_raw := r; k_start := s; k_nd := nd; k_ops := ops; k_d0 := d0;
-                     k_rp0 := rp0; k_plan := plan; k_obs := IRan (map round_obs os) |} = false.
+                     k_rp0 := rp0; k_plan := plan; k_obs := IRan (map round_obs os); k_after := aft |} = false.
 Proof.
-  intros G E HN HE f r s nd ops plan d0 rp0 os Hv Hs.
+  intros G E HN HE f r s nd ops plan d0 rp0 os aft Hv Hs.
   destruct (st_runs Z 0%Z G E HN f r s nd ops (prog_of plan) d0 Hv) as [qs [st [H1 [H2 [H3 H4]]]]].
   rewrite H4 in Hs. injection Hs as <-.
   unfold case_violates_f, ro0. cbn [k_obs k_ops k_raw k_start k_nd].
